@@ -6,6 +6,8 @@
 package sx
 
 import (
+	"os"
+	"runtime"
 	"fmt"
 	"go/types"
 	"math/big"
@@ -231,7 +233,17 @@ func Zero(t types.Type) Val {
 	case *types.Struct:
 		s := &Struct{F: make([]Val, u.NumFields())}
 		for i := range s.F {
-			s.F[i] = Zero(u.Field(i).Type())
+			func() {
+				defer func() {
+					if r := recover(); r != nil {
+						if e, ok := r.(Unsupported); ok {
+							panic(unsupported(e.Msg + " (field " + u.Field(i).Name() + " of " + t.String() + ")"))
+						}
+						panic(r)
+					}
+				}()
+				s.F[i] = Zero(u.Field(i).Type())
+			}()
 		}
 		return s
 	case *types.Array:
@@ -258,7 +270,16 @@ func i64(v int64) *smt.Term { return smt.BVI(v, 64) }
 type Unsupported struct{ Msg string }
 
 func (u Unsupported) Error() string { return "unsupported: " + u.Msg }
-func unsupported(s string) Unsupported { return Unsupported{s} }
+func unsupported(s string) Unsupported {
+	if debugStack {
+		buf := make([]byte, 1<<13)
+		n := runtime.Stack(buf, false)
+		s += "\n" + string(buf[:n])
+	}
+	return Unsupported{s}
+}
+
+var debugStack = os.Getenv("GOCV_DEBUGSTACK") != ""
 
 // ConstInt returns the concrete value of a scalar term.
 func ConstInt(v Val) (int64, bool) {
